@@ -204,7 +204,7 @@ def merge_states(states, rets=None, base=None):
         if any(v is None for v in vals):
             # a key first touched in only some branches: the others still hold the engine-wide base array
             if base is None: raise Unsupported('heap key %s missing in a branch at merge' % key)
-            vals = [v if v is not None else base(key) for v in vals]
+            vals = [v if v is not None else base(key, st_) for v, st_ in zip(vals, states)]
         m.heap[key] = merge_vals(conds, vals)
     gk = set(states[0].ghost)
     for s in states[1:]: gk &= set(s.ghost)
